@@ -4,7 +4,9 @@ import (
 	"bufio"
 	"fmt"
 	"io"
+	"os"
 	"sort"
+	"time"
 
 	"github.com/rs/zerolog"
 	abcitypes "github.com/tendermint/tendermint/abci/types"
@@ -28,6 +30,12 @@ type Obs struct {
 	Begin   []J    `json:"begin"`
 	St      J      `json:"st"`
 }
+
+// ClockSkewDir, when set, makes RunTrie give every replica a state file in that directory and
+// push the save timer of every second replica into the past before each Commit, so that
+// replicas persist at different heights, as nodes with different wall clocks do (C09: results
+// must not depend on wall-clock time).
+var ClockSkewDir string
 
 func (u *Universe) NewReplica() (*Replica, Obs) {
 	r := &Replica{App: app.NewShutterApp()}
@@ -227,7 +235,17 @@ func (u *Universe) RunTrie(behaviours [][]int, alphabet []Op, R int, tw *TraceWr
 			}
 			tx := u.WithNonce(reps[0].App, o)
 			var all []Obs
-			for _, r := range reps {
+			for ri, r := range reps {
+				if ClockSkewDir != "" && o.Op == "end" {
+					if r.App.Gobpath == "" {
+						r.App.Gobpath = fmt.Sprintf("%s/replica-%p.gob", ClockSkewDir, r)
+					}
+					if ri%2 == 1 {
+						r.App.LastSaved = time.Now().Add(-time.Hour) // timer expired: this replica saves now
+					} else {
+						r.App.LastSaved = time.Now() // timer just restarted: this replica does not save
+					}
+				}
 				all = append(all, u.Exec(r, o.Op, tx))
 				st.Steps++
 			}
@@ -245,6 +263,14 @@ func (u *Universe) RunTrie(behaviours [][]int, alphabet []Op, R int, tw *TraceWr
 			}
 			tw.Write(Line{K: o.Op, D: d + 1, Tx: tx, Obs: ds, Hist: b[:d+1]})
 			newObs = append(newObs, Canon(ds))
+		}
+		if ClockSkewDir != "" {
+			for _, r := range reps {
+				if r.App.Gobpath != "" {
+					os.Remove(r.App.Gobpath)
+					os.Remove(r.App.Gobpath + ".tmp")
+				}
+			}
 		}
 		if aborted {
 			// keep the stack of the validator where it is: nothing was pushed
